@@ -173,6 +173,58 @@ Arguments e_seq {msg}. Arguments e_msgs {msg}. Arguments e_done {msg}. Arguments
 Arguments r_evs {msg}. Arguments r_last {msg}.
 Arguments RPush {msg}. Arguments RMaintain {msg}. Arguments RClose {msg}.
 
+(* ---- the source's ordering, and the reassembler ordered by ANY comparison --------------------------
+   sequenceNumSlice.Less of go-libaudit's reassembler.go, with its roll-over rule: two numbers further apart
+   than maxSortRange = 2^24-1 compare the other way round.  [put_ev_by less] is [put_ev] with [less] in place
+   of [<?]; everything else of the reassembler ([mark_done], [cleanup], [lost_of], [last_of]) does not
+   compare sequence numbers.  Proofs/ReassemblerIRTie.v: [put_ev_by N.ltb = put_ev]; [seq_less] IS the
+   generated Less; the generated Put / PushMessage are [put_by seq_less] / [rstep_by seq_less] whenever Less
+   is a strict total order on the numbers present (sort.Sort's contract), and [seq_less = <?] on numbers
+   pairwise closer than 2^24, so that the plain-order definitions above (about which Props/C15.v speaks) are
+   what the source does for such streams.  At a roll-over (2^32-1 followed by 0) only the [_by] definitions
+   apply: 0 sorts AFTER 2^32-1. *)
+Definition max_sort_range : N := 16777215.
+Definition seq_dist (a b : N) : N := if (a <? b)%N then (b - a)%N else (a - b)%N.
+Definition seq_less (a b : N) : bool :=
+  if (max_sort_range <? seq_dist a b)%N then (b <? a)%N else (a <? b)%N.
+
+Section ReassemblerBy.
+  Variable msg : Type.
+  Variable mseq : msg -> N.
+  Variable mtype : msg -> nat.
+  Variable less : N -> N -> bool.
+
+  Fixpoint put_ev_by (exp : nat) (m : msg) (l : list (rev msg)) : list (rev msg) :=
+    match l with
+    | [] => [ev_new msg mseq mtype exp m]
+    | e :: r => if (mseq m =? e_seq e)%N then ev_add msg mtype m e :: r
+                else if less (mseq m) (e_seq e) then ev_new msg mseq mtype exp m :: e :: r
+                else e :: put_ev_by exp m r
+    end.
+
+  Definition put_by (timeout now : nat) (m : msg) (l : list (rev msg)) : list (rev msg) :=
+    if is_eoe (mtype m) then mark_done msg (mseq m) l else put_ev_by (now + timeout) m l.
+
+  Definition rstep_by (maxsz timeout : nat) (st : rst msg) (o : rop msg) : rst msg * list (rev msg) * N :=
+    match o with
+    | RPush now m =>
+        let c := cleanup msg maxsz now (put_by timeout now m (r_evs st)) in
+        ({| r_evs := snd c; r_last := last_of msg (r_last st) (fst c) |}, fst c, lost_of msg (r_last st) (fst c))
+    | _ => rstep msg mseq mtype maxsz timeout st o
+    end.
+
+  Fixpoint rrun_by (maxsz timeout : nat) (st : rst msg) (ops : list (rop msg)) : rst msg * list (rev msg) :=
+    match ops with
+    | [] => (st, [])
+    | o :: r => let '(st', ev, _) := rstep_by maxsz timeout st o in
+                let '(st'', ev') := rrun_by maxsz timeout st' r in (st'', ev ++ ev')
+    end.
+
+  (* the groups ReassemblyComplete receives when [ops] are followed by Close *)
+  Definition groups_of_by (maxsz timeout : nat) (ops : list (rop msg)) : list (list msg) :=
+    let '(st, ev) := rrun_by maxsz timeout (rinit msg) ops in map e_msgs (ev ++ r_evs st).
+End ReassemblerBy.
+
 Section Processor.
   Variables line msg event cerr login AS : Type.
   Variable is_empty : line -> bool.                  (* line == "" *)
